@@ -112,6 +112,10 @@ pub fn key_cases(prop: &'static str, mix: KeyMix) -> BoxedStrategy<Case> {
                 if m2.edge_clock && edge == 0 {
                     c.set("clock0", i32::MAX as i64 - 6);
                 }
+                // one case in five with 160-byte values
+                if edge >= 8 {
+                    c.set("val", "kbig");
+                }
                 if !m2.snap {
                     c.set("snap", 0);
                 }
